@@ -316,6 +316,32 @@ def recipes(eqsig):
     reg('im.calculate_peak', lambda rng, x, k: (im.calculate_peak, (x,), {}))
     reg('sdof.slow_response_spectra', lambda rng, x, k: (sdof.slow_response_spectra, (np.asarray(x[:40], dtype=float), 0.01, per[1:], [0.05]), {}))
     reg('stockwell.dep_itransform', lambda rng, x, k: (sw.dep_itransform, (sw.transform(np.asarray(x[:64], dtype=float)),), {}))
+    # option combinations that are rarely used (one recipe per option value / array-valued option)
+    reg('pc.get_major_change_indices(already_diff,dx)', lambda rng, x, k: (pc.get_major_change_indices, (x,), {'already_diff': True, 'dx': float(rng.choice([0.5, 2.0, 0.01]))}))
+    reg('pc.get_major_change_indices(dx)', lambda rng, x, k: (pc.get_major_change_indices, (x,), {'dx': 0.25, 'rtol': 1e-6, 'atol': 1e-3}))
+    reg('pc.get_zero_and_peak_array_indices(zvals,min_step)', lambda rng, x, k: (pc.get_zero_and_peak_array_indices, (x,), {'zvals': x[::-1], 'min_step': 1}))
+    reg('pc.get_n_cyc_array(switched,peak)', lambda rng, x, k: (pc.get_n_cyc_array, (x,), {'opt': 'switched', 'start': 'peak'}))
+    reg('pc.get_peak_array_indices(min)', lambda rng, x, k: (pc.get_peak_array_indices, (x,), {'ptype': 'min'}))
+    reg('im.calc_sig_dur(custom im,se)', lambda rng, x, k: (im.calc_sig_dur, (A(x),), {'im': im.calc_integral_of_abs_acceleration, 'se': True, 'start': 0.1, 'end': 0.8}))
+    reg('im.calc_bandwidth_freqs(ratio)', lambda rng, x, k: (im.calc_bandwidth_freqs, (A(x),), {'ratio': 0.3}))
+    reg('im.calc_asi(xi,periods)', lambda rng, x, k: (im.calc_asi, (A(x),), {'xi': 0.1, 'periods': np.array([0.1, 0.2, 0.5])}))
+    reg('im.cumulative_response_spectra(xi)', lambda rng, x, k: (im.cumulative_response_spectra, (A(x), 'arias_intensity'), {'periods': [0.2, 0.6], 'xi': 0.0}))
+    reg('sdof.absmax(axis)', lambda rng, x, k: (sdof.absmax, (np.resize(np.asarray(x, dtype=float), 12).reshape(3, 4),), {'axis': 1}))
+    reg('sdof.calc_input_energy_spectrum(xi=0,default periods)', lambda rng, x, k: (sdof.calc_input_energy_spectrum, (eqsig.AccSignal(x, 0.01, response_times=per[1:]),), {'xi': 0.0}))
+    reg('surface.get_time_shift_motions(array red,start)', lambda rng, x, k: (sf.get_time_shift_motions, (A(x), tt), {'up_red': np.array([0.9, 0.8, 1.0]), 'down_red': np.array([0.7, 0.6, 1.0]), 'start': True, 'stt': 0.05}))
+    reg('surface.calc_cum_abs_surface_energy(array red,anti-nodal)', lambda rng, x, k: (sf.calc_cum_abs_surface_energy, (A(x), tt), {'up_red': np.array([0.9, 0.8, 1.0]), 'down_red': np.array([0.7, 0.6, 1.0]), 'nodal': False, 'trim': True}))
+    reg('surface.calc_surface_energy(same red object)', lambda rng, x, k: (lambda r: (sf.calc_surface_energy, (A(x), tt), {'up_red': r, 'down_red': r}))(np.array([0.9, 0.8, 1.0])))
+    reg('fns.get_section_average(index)', lambda rng, x, k: (eqsig.get_section_average, (A(x),), {'start': 0, 'end': max(1, len(x) // 2), 'index': True}))
+    reg('fns.calc_step_fn_steps_vals(ind)', lambda rng, x, k: (eqsig.calc_step_fn_steps_vals, (x,), {'ind': max(1, len(x) // 2)}))
+    reg('fns.calc_smooth_fa_spectrum(default targets,band)', lambda rng, x, k: (lambda a: (eqsig.calc_smooth_fa_spectrum, (a.fa_freqs, a.fa_spectrum), {'band': 20}))(A(x)))
+    reg('fns.calc_smoothing_matrix_konno_1998(default targets)', lambda rng, x, k: (lambda a: (eqsig.calc_smoothing_matrix_konno_1998, (a.fa_freqs,), {'band': 60}))(A(x)))
+    reg('fns.calc_fa_spectrum(n)', lambda rng, x, k: (eqsig.calc_fa_spectrum, (A(x),), {'n': len(x) + 3}))
+    reg('fns.fas2signal(acc)', lambda rng, x, k: (eqsig.fas2signal, (A(x).fa_spectrum, 0.01), {'stype': 'acc'}))
+    reg('fns.interp_left(y=None,scalar)', lambda rng, x, k: (eqsig.interp_left, (1.2, np.array([0., 1, 2])), {}))
+    reg('fns.interp_to_approx_dt(decimate,odd)', lambda rng, x, k: (eqsig.interp_to_approx_dt, (A(x),), {'target_dt': 0.03, 'even': False}))
+    reg('fns.join_sig_w_time_shift(sub)', lambda rng, x, k: (eqsig.join_sig_w_time_shift, (A(x), np.array([0.0, 0.02])), {'jtype': 'sub'}))
+    reg('multiple.compute_rotated(func,offset)', lambda rng, x, k: (eqsig.compute_rotated, (A(x), A(x[::-1])), {'func': im.calc_cav, 'points': 4, 'angle_off_ns': 30.0}))
+    reg('multiple.compute_rotated(arias)', lambda rng, x, k: (eqsig.compute_rotated, (A(x), A(x[::-1])), {'parameter': 'arias_intensity', 'points': 3}))
     reg('design_spectra.c_h_factor', lambda rng, x, k: (ds.c_h_factor, (np.array([0.0, 0.2, 0.7, 2.0, 4.0]), 'D'), {}))
     return R
 
